@@ -18,6 +18,8 @@ const prelude = `(set-option :produce-models true)
 (define-fun nil-slice () Slice (mk-slice 0 0 0 0))
 (define-fun nil-iface () Iface (mk-iface 0 0))
 (define-fun wf-slice ((s Slice)) Bool (and (<= 0 (s-base s)) (<= 0 (s-off s)) (<= 0 (s-len s)) (<= (s-len s) (s-cap s))))
+(declare-fun sidx (Int Int) Int)
+(assert (forall ((o Int) (i Int)) (! (= (sidx o i) (+ o i)) :pattern ((sidx o i)))))
 (declare-fun slen (Str) Int)
 (declare-fun sat (Str Int) Int)
 (declare-fun sconcat (Str Str) Str)
